@@ -10,9 +10,9 @@ EXTENDS Integers, Sequences, FiniteSets, TLC, Json
 CONSTANTS Tier, Emit
 Sites == {"function", "file", "binary", "buildid", "comment", "labelkey", "labelvalue", "numlabelkey", "numlabelunit", "sampletype", "sampleunit", "doc_url"}
 \* metacharacter classes: plain, double quote, backslash, newline, angle brackets, brace, bar, non-ASCII, ::, dot, ampersand, percent
-Classes == <<"a", "\"", "\\", "\n", "<", ">", "{", "|", "NONASCII", "::", ".", "&", "'", "%s", "\\n", "</script>", "\\\"", "]", ";", "-->",
+Classes == <<"a", "\"", "\\", "\n", "<", ">", "{", "|", "NONASCII", "::", ".", "&", "'", "%s", "\\n", "</script>", "\\\"", "]", ";", "-->", "\\l",
              "LONG253", "LONG254", "LONG255", "LONG256">>      \* LONGn: n plain characters (a metacharacter right after them sits at a length boundary)
-LongIdx == {i \in DOMAIN Classes : i > 20}
+LongIdx == {i \in DOMAIN Classes : i > 21}   \* ("\\l": backslash + l is DOT's left-justified line break; a payload may END in it)
 Payloads == { <<c>> : c \in DOMAIN Classes \ LongIdx } \cup { <<l, q>> : l \in LongIdx, q \in {2, 3} } \cup (IF Tier = "thorough" THEN { <<c1, c2>> : c1, c2 \in DOMAIN Classes \ LongIdx } ELSE { <<1, c>> : c \in DOMAIN Classes \ LongIdx } \cup { <<c, 1>> : c \in DOMAIN Classes \ LongIdx })
 Options == { [calltree |-> ct, gran |-> g, tags |-> TRUE] : ct \in BOOLEAN, g \in {"functions", "lines", "files"} }
 VARIABLES pc, c
